@@ -16,6 +16,8 @@ from __future__ import annotations
 
 from pyvc import rnd
 from .common import *  # noqa: F401,F403
+from . import detmodel as D
+from pyvc import arrays
 
 RE = "pyxel/models/readout_electronics/"
 TRUSTED = ["rnd mode: binary64 rounding abstracted by fl with relative error 2^-53, monotone, exact on integers <= 2^53; no overflow/underflow/NaN (signal frames are finite)",
@@ -285,3 +287,71 @@ def sar_noise_unit(u: Unit):
             continue
         sar_post(u, p, "sar_noise.zero_noise", w, sar_replay(True))
     u.cover("sar_noise.cover", ps, lambda p: p.kind == "return")
+
+
+# ---- the simple_adc MODEL: which converter settings reach apply_simple_adc ------------------------------------------------
+MODEL_REPLAY = lambda w: {"code": """
+import numpy as np, verif_probes as VP
+from pyxel.models.readout_electronics import simple_adc
+VIOLATED, DETAIL = False, 'no requested image type narrower than the resolution was accepted'
+for bits in (8, 12, 16, 32):
+    for data_type in (None, 'uint8', 'uint16', 'uint32', 'uint64'):
+        det = VP.detector(adc_bit_resolution=bits, adc_voltage_range=(0.0, 10.0))
+        det.signal.array = np.array([[0.0, 2.5, 5.0, 10.0]] * 3)
+        try:
+            simple_adc(det, data_type=data_type)
+        except Exception as e:
+            continue
+        img = det.image.array
+        full = 2 ** bits - 1
+        if int(img[0, 3]) != full or not np.all(np.diff(img[0].astype(np.int64)) >= 0):
+            VIOLATED, DETAIL = True, f'{bits}-bit converter with data_type={data_type}: codes {img[0].tolist()} ({img.dtype}); full scale is {full}'
+            break
+    if VIOLATED: break
+""", "expect": "the image type holds full scale: codes never wrap"}
+
+
+def _model_units():
+    for bits in (8, 12, 16, 24, 32, 33, 64):
+        def un(u: Unit, bits=bits):
+            fi = u.fn(RE + "simple_adc.py::simple_adc")
+            u.fn("pyxel/util/misc.py::get_dtype")
+            cci = u.cls("pyxel/detectors/characteristics.py::Characteristics")
+            n_ok = 0
+            for data_type in (None, "uint8", "uint16", "uint32", "uint64"):
+                cfg = D.install(Cfg("real"))
+                q = RE + "simple_adc.py::apply_simple_adc"
+
+                def core(ex, args, kwargs, fr):
+                    ex.hold["core"] = dict(kwargs)
+                    dt = kwargs.get("dtype")
+                    return arrays.new_array(ex, (D.ROWS, D.COLS), dt if isinstance(dt, VDtype) else VDtype("uint64"), lambda ix: VInt(z3.Int("code")))
+                cfg.contracts[q] = Contract(q, core, "C16.simple[b]: bounded, monotone, saturating for a dtype of at least b bits")
+
+                def setup(ex, data_type=data_type):
+                    det = D.mk_detector(ex, u)
+                    st = ex.st
+                    ex.hold = {}
+                    cht = st.alloc(HObj(cci, {"_adc_bit_resolution": VInt(bits), "_adc_voltage_range": VTuple([VFloat(LO), VFloat(HI)])}))
+                    st.cell(det).fields["_characteristics"] = cht
+                    sig = D.sym_frame(ex, "signal_in")
+                    st.cell(ex.det_parts["signal"]).fields["_array"] = sig
+                    ex.hold["signal"] = sig
+                    return [det], {"data_type": NONE if data_type is None else VStr(data_type)}
+                ps = u.paths(fi, setup, cfg, label=f"simple_adc[{bits} bits, data_type={data_type}]")
+                for p in ps:
+                    if p.kind != "return":
+                        continue          # a refused setting is fine
+                    n_ok += 1
+                    kw = p.ex.hold.get("core", {})
+                    dt = kw.get("dtype")
+                    wide = isinstance(dt, VDtype) and is_conc(dt.v) and dt.v.startswith("uint") and int(dt.v[4:]) >= bits
+                    u.oblige(p, f"model.simple_adc.image_type_holds_full_scale[{bits},{data_type}]", bool(wide), {"bits": bits, "data_type": str(data_type), "dtype": str(getattr(dt, "v", dt))}, MODEL_REPLAY)
+                    okargs = isinstance(kw.get("bit_resolution"), VInt) and kw["bit_resolution"].v == bits and isinstance(kw.get("voltage_min"), VFloat) and z3.eq(kw["voltage_min"].v, LO) \
+                        and isinstance(kw.get("voltage_max"), VFloat) and z3.eq(kw["voltage_max"].v, HI)
+                    u.oblige(p, f"model.simple_adc.converter_settings_of_the_detector[{bits},{data_type}]", bool(okargs), {}, MODEL_REPLAY)
+            u.cover(f"model.simple_adc.cover[{bits}]", [1] * n_ok, lambda _: True)
+        unit("C16", f"model.simple_adc[{bits}]")(un)
+
+
+_model_units()
